@@ -43,14 +43,42 @@ META = {
         "read-back predicates on the real outputs. Inputs: the shared pipeline stream, a separately seeded stream "
         "of reorderings of %ordered/%rewrite rows (reversal, swaps with fixed points, rotations, permutations, moves, "
         "nested-only changes, with insertions/removals, at depth 1-3), and diffs built directly (all five ops, "
-        "depth <= 4, delimiter-like rows)."),
+        "depth <= 4, delimiter-like rows). "
+        "EXTENDED DOMAIN (C03X_*, Model/DiffX.v, Model/DiffSort.v). PROVED for all inputs: on the domain xdom (after "
+        "lowering no two rows of a side collide; a row spelled differently on the two sides has no known children and "
+        "one rule; no rule is both %ignore_case and %multiline; no %multiline row under a %rewrite row) the diff of a "
+        "rulebook with %ignore_case rules is a lossless description, in the sense of every theorem above, of the "
+        "NORMALISED pair: rows of %ignore_case rules replaced by their lower-case spelling at every depth -- the "
+        "spelling the diff shows, neither old's nor new's -- and a row spelled differently on the two sides carrying "
+        "the match recorded last [C03X_lossless, C03X_ordered_in_new_order, C03X_moved_all_depths, "
+        "C03X_rewrite_shown_whole, C03X_projections, C03X_norm_only_lowers, C03X_equal_modulo_case]; without "
+        "%ignore_case rows the extended model is Model/Diff.v's make_diff, and without %multiline rows the extended "
+        "differ is diff_t at every depth [C03X_conservative_ignore_case, C03X_conservative_multiline, "
+        "C03X_full_model_without_multiline]; every level of resort_diff's output is a permutation of the input "
+        "level, and where diff_cmp is a weak order on the level it is sorted by it and stable; a one-op level is "
+        "untouched [C03X_resort_permutes_levels, C03X_resort_sorted_stable, C03X_resort_one_op]. REFUTED / "
+        "reproduced by the model and replayed on the real code: diff_cmp is not a weak order (the displayed order "
+        "then depends on TimSort's schedule) [C03X_diff_cmp_not_weak_order]; a childless new/removed %multiline "
+        "row is invisible, an emptied body is UNCHANGED, a reordered body shows the whole block "
+        "[C03X_multiline_losses]. NOT PROVED (statements kept as Definitions): the per-level characterisation of "
+        "%multiline groups for the model [C03X_multiline_level_statement; evaluated on every real output], the "
+        "projection theorem for sides with %rewrite rows [C03X_projections_rewrite_statement]. CORRESPONDENCE for "
+        "the extension: a separate stream of rulebooks with %ignore_case (parameter and inline (?i)) and %multiline "
+        "rules (respellings, collisions, bodies edited / reordered / emptied) against the real make_diff on xdom, "
+        "P_C03X on the real outputs; exceptions of the real make_diff outside xdom are classified by Coq predicates "
+        "(four known classes, known/C03.json); resort_diff's real output against the stable sort by the modelled "
+        "diff_cmp wherever that is a weak order, per-level permutation always."),
     "technique": "Coq induction over annotated config trees, diffs and signed-line listings; vm_compute differential "
                  "check on real make_diff / formatter.diff / gen_pre_as_diff outputs",
     "note": "The theorems are about the Gallina model; the tie to the code is differential testing. Not modelled: "
-            "%ignore_case re-keying, %multiline, vendor %diff_logic functions (out of the property's scope), colours "
-            "and the show_rules comment lines of gen_pre_as_diff, resort_diff's comparison function (only the "
-            "per-level multiset of its output is checked). With %rewrite rows on a side the projection of that side "
-            "is characterised by C03_lossless (what may be omitted), not by C03_projections.",
+            "vendor %diff_logic functions (out of the property's scope), colours and the show_rules comment lines of "
+            "gen_pre_as_diff, %ignore_case / %multiline outside xdom (the real make_diff raises or drops rows there: "
+            "known findings), resort_diff where diff_cmp is not a weak order (only the per-level permutation is "
+            "claimed) and words int()/ip_interface() accept beyond sign+digits+underscores and dotted IPv4[/len]. "
+            "%multiline: the model is compared with the code and its per-level law is evaluated on real outputs, but "
+            "the at-every-depth losslessness theorem covers trees without %multiline rows only. With %rewrite rows "
+            "on a side the projection of that side is characterised by C03_lossless (what may be omitted), not by "
+            "C03_projections.",
 }
 
 AO = "(annot_f pm (pc_rules c) (pc_old c))"
@@ -535,17 +563,378 @@ def pipeline_stage(ctx, n: int):
     })
     ctx.assumptions += [
         "rule patterns restricted to the plain rule language of Model/Pattern.v (C07)",
-        "not modelled: %ignore_case re-keying, %multiline, %comment/add_comments, vendor %logic/%diff_logic functions",
+        "not modelled: %comment/add_comments, vendor %logic/%diff_logic functions; %ignore_case / %multiline are modelled "
+        "on the domain xdom of Spec/P_C03X.v (x_stream)",
         "textual views: colours and show_rules comment lines of gen_pre_as_diff are switched off; resort_diff is "
-        "not modelled (its output is only checked through the per-level multiset predicate)",
+        "modelled as the stable sort by diff_cmp where diff_cmp is a weak order on every level (resort)",
     ]
     return cases, outs
+
+
+# ------------------------------------------------------------------ C03X: %ignore_case and %multiline
+
+X_IMPORTS = IMPORTS + "\nFrom Annet Require Import Model.DiffX Spec.P_C03X."
+X_TY = "(pcase * list (string * (bool * bool)))%type"
+_XAO = "(annot_f pm (pc_rules (fst c)) (pc_old (fst c)))"
+_XAN = "(annot_f pm (pc_rules (fst c)) (pc_new (fst c)))"
+_XFL = "(fl_of (snd c))"
+X_PREDS = {
+    "indom": f"fun c => xdom {_XFL} {_XAO} {_XAN}",
+    "agree": f"fun c => negb (xdom {_XFL} {_XAO} {_XAN}) || diff_eqb (make_diffXM {_XFL} pm (pc_rules (fst c)) "
+             f"(pc_old (fst c)) (pc_new (fst c))) (pc_diff_full (fst c))",
+    "holds": f"fun c => P_C03X {_XFL} pm (pc_rules (fst c), pc_old (fst c), pc_new (fst c)) (pc_diff_full (fst c))",
+    # conservativity on real outputs: without flags the extended model is the old one
+    "same_as_base": f"fun c => negb (is_nil (snd c)) || diff_eqb (make_diffXM {_XFL} pm (pc_rules (fst c)) (pc_old (fst c)) "
+                    f"(pc_new (fst c))) (p_make_diff (pc_rules (fst c)) (pc_old (fst c)) (pc_new (fst c)))",
+}
+X_RAISED = {
+    # signature of the known finding: a row of an %ignore_case rule spelled differently on the two sides and
+    # having known children (or governed by different rules) -- outside [respell_ok]
+    "respell_ok": f"fun c => respell_ok {_XFL} {_XAO} (AT {_XAN})",
+    "no_ic_ml": f"fun c => no_ic_ml_t {_XFL} (AT {_XAO}) && no_ic_ml_t {_XFL} (AT {_XAN})",
+    "nocollide": f"fun c => awfb (normO {_XFL} {_XAO} {_XAN}) && awfb (normN {_XFL} {_XAO} {_XAN})",
+    "ml_rw_ok": f"fun c => ml_rw_ok_t {_XFL} false (AT {_XAO}) && ml_rw_ok_t {_XFL} false (AT {_XAN})",
+}
+XWORDS = ["a", "A", "b", "Eth1", "ETH1", "eth1", "lo0", "Lo0", "x", "X", "10.0.0.1", "7"]
+BODY = ["l1", "l2 x", "ssh-rsa AAA", "BBB", "end", "L1"]
+
+
+def _recase(rng, row: str) -> str:
+    f = rng.choice([str.lower, str.upper, str.capitalize, lambda w: w, lambda w: w])
+    return " ".join(f(w) for w in row.split())
+
+
+def _x_rules(rng, kind: str) -> list[dict]:
+    rules: list[dict] = []
+    ic_on = kind in ("ic", "both")
+    ml_on = kind in ("ml", "both")
+
+    def icr(pat, **kw):
+        r = _rule(pat, **kw)
+        if ic_on and rng.random() < 0.75:
+            r["ic"] = True
+            r["icform"] = "inline" if rng.random() < 0.25 else "param"
+        return r
+
+    rules.append(icr(rng.choice(["desc *", "Desc *", "desc ~"]), mode=rng.choice(["", "", "", "ordered", "rewrite"])))
+    if rng.random() < 0.7:
+        rules.append(_rule("mtu *"))
+    if rng.random() < 0.5:
+        rules.append(icr("peer * *", mode=rng.choice(["", "ordered"])))
+    blk_kids = [icr("set *"), _rule("opt *")]
+    if ml_on and rng.random() < 0.5:
+        blk_kids.append(dict(_rule("key *", kids=[_rule("~")] if rng.random() < 0.8 else []), ml=True))
+    if rng.random() < 0.4:
+        blk_kids.append(icr("if *", kids=[icr("set *")], mode=rng.choice(["", "ordered", "rewrite"])))
+    blk = _rule("blk *", kids=blk_kids, mode=rng.choice(["", "", "ordered", "rewrite"]))
+    if ic_on and rng.random() < 0.25:
+        blk["ic"] = True
+    rules.append(blk)
+    if ml_on:
+        m = _rule(rng.choice(["key *", "rsa key *"]), ml=True)
+        x = rng.random()
+        if x < 0.6:
+            m["kids"] = [_rule("~")]
+        elif x < 0.8:
+            m["kids"] = [_rule("l1"), _rule("l2 *"), _rule("ssh-rsa *")]
+        if rng.random() < 0.15:
+            m["mode"] = rng.choice(["ordered", "rewrite"])          # then %multiline has no effect on the diff
+        if ic_on and rng.random() < 0.08:
+            m["ic"] = True                                          # outside the domain
+        rules.append(m)
+    rng.shuffle(rules)
+    if ml_on and rng.random() < 0.35:
+        rules.append(_rule("~", glob=True))                        # the shipped catch-all: ~ %global
+    return rules
+
+
+def _x_body(rng, depth=0) -> dict:
+    t: dict = {}
+    for _ in range(rng.choice([0, 1, 2, 3, 3])):
+        row = rng.choice(BODY)
+        if row not in t:
+            t[row] = _x_body(rng, depth + 1) if depth < 2 and rng.random() < 0.25 else {}
+    return t
+
+
+def _x_config(rng, rules: list[dict], depth=0) -> dict:
+    t: dict = {}
+    for r in rules:
+        if r["pat"] == "~" or rng.random() < 0.25:
+            continue
+        for _ in range(rng.choice([1, 1, 2, 3])):
+            ws = []
+            for tok in r["pat"].split():
+                ws += [rng.choice(XWORDS)] if tok == "*" else rng.sample(XWORDS, rng.randint(1, 2)) if tok == "~" else [tok]
+            row = " ".join(ws)
+            if r.get("ic") and rng.random() < 0.5:
+                row = _recase(rng, row)
+            if row in t:
+                continue
+            if r.get("ml"):
+                t[row] = _x_body(rng)
+            elif r["kids"] and rng.random() < 0.8:
+                t[row] = _x_config(rng, r["kids"], depth + 1)
+            else:
+                t[row] = {}
+    items = list(t.items())
+    rng.shuffle(items)
+    return dict(items)
+
+
+def _x_mutate(rng, t: dict, rules: list[dict], tags: dict) -> dict:
+    out = []
+    for row, kids in t.items():
+        r = P.rule_for(row.lower(), [dict(q, pat=q["pat"].lower()) for q in rules])
+        r = None if r is None else next(q for q in rules if q["pat"].lower() == r["pat"])
+        x = rng.random()
+        if x < 0.12:
+            continue
+        nrow, nk = row, kids
+        if r is not None and r.get("ic") and x < 0.5:
+            nrow = _recase(rng, row)
+            if nrow != row:
+                tags["respelled"] = tags.get("respelled", 0) + 1
+                if kids:
+                    tags["respelled_block"] = tags.get("respelled_block", 0) + 1
+        if r is not None and r.get("ml"):
+            y = rng.random()
+            items = list(kids.items())
+            if y < 0.25 and len(items) > 1:
+                rng.shuffle(items)
+                nk = dict(items)
+                tags["ml_body_reordered"] = tags.get("ml_body_reordered", 0) + 1
+            elif y < 0.45:
+                nk = _x_body(rng)
+            elif y < 0.55:
+                nk = {}
+            else:
+                nk = _deepcopy(kids)
+        elif r is not None and kids:
+            nk = _x_mutate(rng, kids, r["kids"], tags) if rng.random() < 0.7 else _deepcopy(kids)
+        out.append((nrow, nk))
+    extra = _x_config(rng, rules)
+    for k, v in extra.items():
+        if rng.random() < 0.3:
+            out.insert(rng.randrange(len(out) + 1), (k, v))
+    if rng.random() < 0.25:
+        rng.shuffle(out)
+    res: dict = {}
+    for k, v in out:
+        res.setdefault(k, v)
+    return res
+
+
+def gen_x_case(rng) -> dict:
+    kind = rng.choice(["ic", "ic", "ml", "ml", "both", "none"])
+    rules = _x_rules(rng, kind)
+    old = _x_config(rng, rules)
+    tags = {"kind": kind}
+    new = _x_mutate(rng, old, rules, tags)
+    if rng.random() < 0.08:
+        new = _deepcopy(old)
+        tags["same"] = 1
+    return {"vendor": rng.choice(P.BLOCK_VENDORS), "rules": rules, "orules": [], "old": old, "new": new,
+            "patching": P.rules_text(rules), "ordering": "", "stream": "x", "tags": tags}
+
+
+def _x_term(c: dict, o: dict) -> str:
+    return cpair(slim_pcase(c, o), P.coq_flags(c["rules"]))
+
+
+def _has_ml_entry(d, mlraws) -> bool:
+    return any(n["raw"] in mlraws or _has_ml_entry(n["kids"], mlraws) for n in d)
+
+
+def x_stage(ctx, n: int):
+    """%ignore_case / %multiline: the extended model make_diffXM against the real make_diff on its domain [xdom],
+    P_C03X on the real outputs; cases on which the real make_diff raises are classified by Coq."""
+    rng = ctx.rng("c03x")
+    cases = [gen_x_case(rng) for _ in range(n)]
+    outs = core.run_impl_sharded("pipeline_runner.py", [P.impl_payload(c) for c in cases])
+
+    def rep(i):
+        return {"case": {k: cases[i][k] for k in CASE_KEYS}, "impl": outs[i],
+                "structured": {"rules": cases[i]["rules"], "orules": []}, "generator_tags": cases[i]["tags"], "stream": "x"}
+
+    raised = [i for i, o in enumerate(outs) if "fatal" in o or "diff_full_err" in o]
+    keep = [i for i in range(len(cases)) if i not in set(raised)]
+    res = core.run_case_files(ctx.prop, X_TY, X_IMPORTS, X_PREDS, [_x_term(cases[i], outs[i]) for i in keep],
+                              per_file=40, tag="x")
+    res = {k: [keep[j] for j in v] for k, v in res.items()}
+    for i in sorted(res["holds"], key=lambda i: case_size(cases[i]))[:1]:
+        ctx.add_violation(core.Violation(
+            signature="C03/x/lossless-modulo-case",
+            what="with %ignore_case / %multiline rules the real diff is not a lossless description of the normalised "
+                 "(lower-cased) configurations, or a multiline block is not shown whole / shown although unchanged",
+            replay=dict(rep(i), clause="P_C03X")))
+    if not res["holds"]:
+        for k in ("agree", "same_as_base"):
+            for i in sorted(res[k], key=lambda i: case_size(cases[i]))[:1]:
+                ctx.add_violation(core.Violation(
+                    signature=f"C03/model-impl-disagree/x-{k}",
+                    what="the extended Coq model (Model/DiffX.v) and the real make_diff differ on a case inside the "
+                         "model's domain; P_C03X holds on every real output explored",
+                    replay=dict(rep(i), correspondence=k, disagreeing_cases=len(res[k])), no_input=True))
+    # the real make_diff raised: Coq says whether the case is the known class (respelled block / ic+multiline)
+    known_raise = 0
+    seen_cls: set = set()
+    if raised:
+        r2 = core.run_case_files(ctx.prop, X_TY, X_IMPORTS, X_RAISED,
+                                 [_x_term(cases[i], {"diff_full": []}) for i in raised], per_file=40, tag="xraised")
+        for j, i in enumerate(raised):
+            err = outs[i].get("diff_full_err") or "fatal"
+            if err == "KeyError" and j in r2["respell_ok"]:
+                known_raise += 1
+                if known_raise == 1:
+                    ctx.add_violation(core.Violation(
+                        signature="C03/x/ignore_case-respelled-block-raises-KeyError",
+                        what="make_diff raises KeyError when a row of an %ignore_case rule is spelled differently in old "
+                             "and new and has children the rulebook knows",
+                        replay=rep(i)))
+            elif err == "KeyError" and j in r2["nocollide"]:
+                known_raise += 1
+                if "coll" not in seen_cls:
+                    seen_cls.add("coll")
+                    ctx.add_violation(core.Violation(
+                        signature="C03/x/ignore_case-colliding-blocks-raise-KeyError",
+                        what="make_diff raises KeyError when two rows of a side differ only in case, are governed by an "
+                             "%ignore_case rule and have children the rulebook knows",
+                        replay=rep(i)))
+            elif err == "KeyError" and j in r2["no_ic_ml"]:
+                known_raise += 1
+                if "icml" not in seen_cls:
+                    seen_cls.add("icml")
+                    ctx.add_violation(core.Violation(
+                        signature="C03/x/ignore_case-with-multiline-raises-KeyError",
+                        what="make_diff raises KeyError for a row of a rule that is both %ignore_case and %multiline "
+                             "(multiline_diff looks the lower-cased row up in the dictionaries that were not re-keyed)",
+                        replay=rep(i)))
+            elif err == "AttributeError" and j in r2["ml_rw_ok"]:
+                known_raise += 1
+                if "mlrw" not in seen_cls:
+                    seen_cls.add("mlrw")
+                    ctx.add_violation(core.Violation(
+                        signature="C03/x/multiline-inside-rewrite-raises-AttributeError",
+                        what="make_diff raises AttributeError when a %multiline block that differs sits at or below a row of "
+                             "a %rewrite rule (rewrite_diff reads .op of the body's plain tuples)",
+                        replay=rep(i)))
+            else:
+                ctx.add_violation(core.Violation(
+                    signature="C03/x/implementation-raised",
+                    what="the real make_diff raised an unexpected exception: " + str(outs[i].get("fatal") or outs[i].get("err") or err)[:300],
+                    replay=rep(i)))
+                break
+    kinds: dict = {}
+    tagsum: dict = {}
+    for c in cases:
+        kinds[c["tags"]["kind"]] = kinds.get(c["tags"]["kind"], 0) + 1
+        for k, v in c["tags"].items():
+            if k != "kind":
+                tagsum[k] = tagsum.get(k, 0) + (1 if v else 0)
+    mlraws = [{P.raw_rule(r) for r in _all_rules(c["rules"]) if r.get("ml")} for c in cases]
+    ctx.coverage["x_stream"] = {
+        "cases": len(cases), "validated_against_impl": len(keep), "inside_domain": len(keep) - len(res["indom"]),
+        "outside_domain": len(res["indom"]), "implementation_raised": len(raised), "raised_known_class": known_raise,
+        "kind_histogram": kinds, "cases_with": tagsum,
+        "real_diffs_with_multiline_entry": sum(1 for i in keep if _has_ml_entry(outs[i].get("diff_full", []), mlraws[i])),
+        "real_diffs_with_lowered_row": sum(1 for i in keep if _lowered(cases[i], outs[i])),
+        "disagreements": len(res["agree"]) + len(res["same_as_base"]),
+        "samples": [rep(i) for i in keep[:1]],
+    }
+    ctx.coverage["evaluations"] = ctx.coverage.get("evaluations", 0) + len(cases)
+    ctx.coverage["traces_validated_against_impl"] = ctx.coverage.get("traces_validated_against_impl", 0) + len(keep)
+    ctx.coverage["disagreements_checked"] = ctx.coverage.get("disagreements_checked", 0) + ctx.coverage["x_stream"]["disagreements"]
+
+
+def _all_rules(rules):
+    for r in rules:
+        yield r
+        yield from _all_rules(r["kids"])
+
+
+def _rows_of(t: dict, acc: set):
+    for k, v in t.items():
+        acc.add(k)
+        _rows_of(v, acc)
+    return acc
+
+
+def _lowered(c, o) -> bool:
+    """the real diff shows a row in a spelling that occurs in neither configuration"""
+    have = _rows_of(c["old"], set()) | _rows_of(c["new"], set())
+
+    def walk(d):
+        return any(n["row"] not in have or walk(n["kids"]) for n in d)
+    return walk(o.get("diff_full", []))
+
+
+# ------------------------------------------------------------------ resort_diff's order
+
+SORT_IMPORTS = ("From Annet Require Import Base.Str Base.Tree Model.Rulebook Model.Diff Model.Order Model.DiffSort.")
+SORT_TY = "(list dnode * list dnode)%type"
+SORT_PREDS = {
+    "guard": "fun c => forallb sort_modelled_n (fst c) && wo_all (fst c)",
+    "agree": "fun c => negb (forallb sort_modelled_n (fst c) && wo_all (fst c)) || diff_eqb (resort (fst c)) (snd c)",
+    "holds": "fun c => lvlperm (fst c) (snd c) && (negb (forallb sort_modelled_n (fst c) && wo_all (fst c)) || sorted_all (snd c))",
+}
+SW0 = ["peer", "rule", "a", "10", "2", "10.0.0.1", "10.0.0.2/24", "maximum"]
+SW1 = ["1", "2", "10", "x", "y", "10.0.0.1", "10.0.0.9", "1_0", "+3", "-4", "10.0.0.0/8", ""]
+
+
+def gen_sort_diff(rng, depth=0) -> list:
+    out, seen = [], set()
+    one_op = rng.random() < 0.15
+    op0 = rng.choice(TOPS[:4])
+    for _ in range(rng.choice([2, 3, 3, 4, 5, 6])):
+        row = " ".join([rng.choice(SW0), rng.choice(SW1)] + ([rng.choice(SW1)] if rng.random() < 0.3 else []))
+        op = op0 if one_op else rng.choice(TOPS[:4])
+        if (row, op) in seen:
+            continue
+        seen.add((row, op))
+        kids = gen_sort_diff(rng, depth + 1) if depth < 2 and rng.random() < 0.25 else []
+        out.append({"op": op, "row": row, "raw": "r *", "key": [], "kids": kids})
+    return out
+
+
+def sort_stage(ctx, n: int):
+    rng = ctx.rng("resort")
+    ds = [gen_sort_diff(rng) for _ in range(n)]
+    outs = core.run_impl_sharded("c03_runner.py", [{"vendor": "huawei", "indent": "  ", "diff": d, "want_resorted": True} for d in ds])
+    keep = [i for i, o in enumerate(outs) if "resorted" in o]
+    res = core.run_case_files(ctx.prop, SORT_TY, SORT_IMPORTS, SORT_PREDS,
+                              [cpair(P.coq_diff(ds[i]), P.coq_diff(outs[i]["resorted"])) for i in keep], per_file=100, tag="sort")
+    res = {k: [keep[j] for j in v] for k, v in res.items()}
+    for i in res["holds"][:1]:
+        ctx.add_violation(core.Violation(
+            signature="C03/x/resort-not-a-sorted-permutation",
+            what="resort_diff's output is not a per-level permutation of its input, or not sorted by diff_cmp on a level "
+                 "where diff_cmp is a weak order",
+            replay={"case": {"vendor": "huawei", "indent": "  ", "diff": ds[i], "want_resorted": True}, "impl": outs[i]}))
+    if not res["holds"]:
+        for i in res["agree"][:1]:
+            ctx.add_violation(core.Violation(
+                signature="C03/model-impl-disagree/resort",
+                what="Coq model of resort_diff (stable sort by diff_cmp) and the implementation differ on a diff where "
+                     "diff_cmp is a weak order on every level",
+                replay={"case": {"vendor": "huawei", "indent": "  ", "diff": ds[i], "want_resorted": True}, "impl": outs[i]},
+                no_input=True))
+    ctx.coverage["resort"] = {
+        "cases": len(ds), "validated_against_impl": len(keep),
+        "weak_order_on_every_level": len(keep) - len(res["guard"]), "not_a_weak_order_or_unmodelled_word": len(res["guard"]),
+        "reordered_by_impl": sum(1 for i in keep if [n["row"] for n in outs[i]["resorted"]] != [n["row"] for n in ds[i]]),
+        "disagreements": len(res["agree"]),
+    }
+    ctx.coverage["evaluations"] = ctx.coverage.get("evaluations", 0) + len(ds)
+    ctx.coverage["traces_validated_against_impl"] = ctx.coverage.get("traces_validated_against_impl", 0) + len(keep)
 
 
 def run(ctx):
     core.proof_stage(ctx, THEOREM_FILE)
     cases, outs = pipeline_stage(ctx, 12000 if ctx.thorough else 1200)
     text_stage(ctx, outs)
+    x_stage(ctx, 4000 if ctx.thorough else 240)
+    sort_stage(ctx, 6000 if ctx.thorough else 300)
 
 
 def _text_terms(tcases, res_impl):
